@@ -67,6 +67,22 @@ type E3 struct{}
 
 func (E3) XGo_Enum() It3 { return It3{new(int)} }
 
+type LS []int
+
+func (LS) XGo_Enum() func(yield func(int) bool) {
+	return func(yield func(int) bool) {
+		for i := 1; i <= 3; i++ {
+			if !yield(i * 10) {
+				return
+			}
+		}
+	}
+}
+
+type Lv int
+
+func (Lv) XGo_Enum() *It2 { return &It2{} }
+
 type F0 struct{}
 
 func (F0) XGo_Enum() func(yield func() bool) {
@@ -224,13 +240,13 @@ func newExecWorld(en *types.Package) *execWorld {
 	decl("gk", ti)
 	decl("gs", ts)
 	decl("gv", ti)
-	for n, t := range map[string]string{"vep2": "EP2", "ve2": "E2", "ve3": "E3", "vf0": "F0", "vf1": "F1", "vf2": "F2"} {
+	for n, t := range map[string]string{"vep2": "EP2", "ve2": "E2", "ve3": "E3", "vf0": "F0", "vf1": "F1", "vf2": "F2", "vls": "LS", "vlv": "Lv"} {
 		decl(n, w.en.Ref(t).Type())
 	}
 	return w
 }
 
-var execEnumVar = map[string]string{"next2": "ve2", "ptrnext2": "vep2", "next3": "ve3", "iter0": "vf0", "iter1": "vf1", "iter2": "vf2"}
+var execEnumVar = map[string]string{"iter1s": "vls", "next2i": "vlv", "next2": "ve2", "ptrnext2": "vep2", "next3": "ve3", "iter0": "vf0", "iter1": "vf1", "iter2": "vf2"}
 
 // build builds point p as function name; returns the reference function text (named r<name>)
 func (w *execWorld) build(p lowPoint, name string) (ref string, fail string) {
@@ -314,13 +330,13 @@ func (w *execWorld) build(p lowPoint, name string) (ref string, fail string) {
 		refBody += "m2()\n"
 		cb.End()
 		// the reference loop over the enumerated sequence
-		next := st == "next2" || st == "next3" || st == "ptrnext2"
+		next := st == "next2" || st == "next3" || st == "ptrnext2" || st == "next2i"
 		switch {
 		case next && (vf == "assign-k" || vf == "assign-kv"):
 			// the documented lowering assigns the results of every Next() call, the final failing one included
-			asg := map[string]string{"next2assign-k": "gk, ok = (i+1)*10, i < 3", "ptrnext2assign-k": "gk, ok = (i+1)*10, i < 3",
+			asg := map[string]string{"next2assign-k": "gk, ok = (i+1)*10, i < 3", "ptrnext2assign-k": "gk, ok = (i+1)*10, i < 3", "next2iassign-k": "gk, ok = (i+1)*10, i < 3",
 				"next3assign-k": "gs, _, ok = string(rune('b'+i)), (i+1)*10, i < 3", "next3assign-kv": "gs, gv, ok = string(rune('b'+i)), (i+1)*10, i < 3"}[st+vf]
-			zero := map[string]string{"next2assign-k": "gk = 0", "ptrnext2assign-k": "gk = 0", "next3assign-k": "gs = \"\"", "next3assign-kv": "gs, gv = \"\", 0"}[st+vf]
+			zero := map[string]string{"next2assign-k": "gk = 0", "ptrnext2assign-k": "gk = 0", "next2iassign-k": "gk = 0", "next3assign-k": "gs = \"\"", "next3assign-kv": "gs, gv = \"\", 0"}[st+vf]
 			refHead = "for i := 0; ; i++ {\nvar ok bool\n" + asg + "\nif !ok {\n" + zero + "\nbreak\n}"
 		case st == "iter0":
 			refHead = "for range 3 {"
@@ -373,6 +389,11 @@ func (w *execWorld) build(p lowPoint, name string) (ref string, fail string) {
 		}
 		argFns := []string{"a1", "a2"}
 		for i := 0; i < nfixed; i++ {
+			if i == 0 && p.Pt.Body == "mutate" {
+				cb.Val(obj("gk"))
+				atxt = append(atxt, "gk")
+				continue
+			}
 			cb.Val(obj(argFns[i])).Call(0)
 			atxt = append(atxt, argFns[i]+"()")
 		}
@@ -421,6 +442,12 @@ func (w *execWorld) build(p lowPoint, name string) (ref string, fail string) {
 		}
 		body := "m1()\n"
 		call("m1")
+		if p.Pt.Body == "mutate" {
+			// gk = 5; p1 = p1 + 10
+			cb.VarRef(obj("gk")).Val(5).Assign(1)
+			cb.VarRef(params[0]).Val(params[0]).Val(10).BinaryOp(token.ADD).Assign(1)
+			body += "gk = 5\np1 = p1 + 10\n"
+		}
 		if p.Pt.Body != "unused" { // use every parameter
 			for i := 0; i < p.Pt.NP; i++ {
 				switch {
